@@ -13,7 +13,7 @@ from ..py_frontend import (dotted, call_name, calls_under, walk, param_names, is
 from ..cfg import cfg_of, const_eval
 from ..cxx_ir import CALL_KINDS
 from .common import (short, inst, live_funcs, calls_in, callee_func, member_path, enclosing_map,
-                     ancestors, kind_switches, local_inits)
+                     ancestors, kind_switches, local_inits, strip_casts)
 from .traversal import _path_facts, _conj_atoms
 
 MIRROR = '_NODETYPE_REGISTRY'
@@ -477,6 +477,17 @@ def d2(ctx):
                   '%s reads the inherited mode (for sorting) and the namespace\'s own mode (for '
                   'recording the namespace)' % inst(f),
                   '%s reads flags %s' % (inst(f), sorted(flags)), f.loc)
+        # both reads are about the namespace the caller passed, nothing else
+        ns_params = {p_[0] for p_ in f.params if p_[0] and 'string' in (p_[1] or '')}
+        ctx.require(len(ns_params) == 1, '%s: %d string parameters, expected the namespace alone'
+                    % (inst(f), len(ns_params)))
+        foreign = [c for c in cs if not c.call_args() or c.call_args()[0] is None or
+                   member_path(strip_casts(c.call_args()[0])) not in ns_params]
+        ctx.check(short(f) + '/reads-the-callers-namespace', not foreign,
+                  '%s: every mode read is for the namespace parameter' % inst(f),
+                  '%s reads the dict-order mode of something other than its namespace parameter at %s: '
+                  'the mode used / the namespace recorded in the treespec is not the caller\'s'
+                  % (inst(f), foreign[0].loc if foreign else ''), foreign[0].loc if foreign else f.loc)
         rets = [r for r in f.body.walk() if r.kind == 'ReturnStmt']
         ok = False
         if len(rets) == 1 and rets[0].kids and rets[0].kids[0].kind == 'BinaryOperator' and \
@@ -490,7 +501,7 @@ def d2(ctx):
                 if n.kind == 'BinaryOperator' and n.op == '=' and n.kids[1] is not None:
                     for c in calls_in(n.kids[1], {'IsDictInsertionOrdered'}):
                         a = [x for x in c.call_args() if x is not None and x.kind != 'CXXDefaultArgExpr']
-                        if len(a) >= 2 and const_eval(a[1]) is False:
+                        if len(a) >= 2 and const_eval(a[1]) is False and strip_casts(n.kids[1]) is c:
                             own_var = member_path(n.kids[0])
             ok = own_var in names and len(names) == 2
         ctx.check(short(f) + '/returns-custom-or-own-mode', ok,
